@@ -54,7 +54,7 @@ def tsig(clause, t):
 def run_plans(ctx, plans, nproc):
     jobs = [(p, ctx.scratch) for p in plans]
     results = wdpool.run_jobs(certchain.execute, jobs, nproc=nproc, budget=2.0, retry_budget=10.0, max_hangs=6)
-    traces = []
+    traces, extras = [], []
     for p, r in zip(plans, results):
         if r["status"] == "skipped":
             traces.append(None)
@@ -67,8 +67,13 @@ def run_plans(ctx, plans, nproc):
         else:
             raise core.MachineryError("C06 worker failed on plan %s: %s" % (json.dumps(p)[:300], r["detail"]))
         t["plan"] = p
+        also = t.pop("also", None)
         traces.append(t)
-    return traces, results.stats
+        if also is not None:        # the answer changed after the object had been asked about another root
+            also["plan"] = dict(p, requery=True)
+            extras.append(also)
+    # appended after the plan-aligned traces so that positions keep matching the plans
+    return traces + extras, results.stats
 
 
 def run(ctx):
